@@ -523,11 +523,15 @@ unsafe fn do_spawn<F: PreExec>(
             }
             Err(ref e) if matches!(e.code, Some(Errno::EINTR)) => {}
             Err(e) => {
+                // The child may already be running the program: release our pipe ends first,
+                // a program reading its stdin until EOF would otherwise never exit
+                drop(ours);
                 process.wait()?;
                 return Err(e.into());
             }
             Ok(..) => {
                 // pipe I/O up to PIPE_BUF bytes should be atomic
+                drop(ours);
                 process.wait()?;
                 return Err(Error::no_code("Short read on the CLOEXEC pipe"));
             }
